@@ -222,6 +222,21 @@ def run_impl(flavour, casefile, outfile, hang_secs=5, env=None):
             if len(hangs) >= 2:
                 break   # do not spend the run waiting on a code base that hangs everywhere
             continue
+        if rc < 0 or rc in (132, 134, 136, 139):
+            # the harness process was killed by a signal (stack overflow of an unbounded recursion, abort): the case it was
+            # running is treated like a call that never returns, and the run resumes with the next case
+            last = -1
+            if os.path.exists(outfile):
+                for line in open(outfile):
+                    if line.startswith("end "):
+                        last = int(line.split()[1])
+            hung = next_applicable(casefile, flavour, max(last + 1, start))
+            hangs.append(hung)
+            truncate_after_end(outfile, last)
+            start = hung + 1
+            if len(hangs) >= 2:
+                break
+            continue
         raise RuntimeError("harness failed rc=%d: %s" % (rc, out[-2000:]))
     res, order = parse_out(outfile)
     return res, order, hangs
